@@ -77,8 +77,10 @@ def rotAngles (rot : Vec3 α) : α × α × α :=
     let inv := (1 : α) / sintheta
     (sintheta, rot.x * inv, rot.y * inv)
   else if Num.gt sintheta (0 : α) then
-    let cosphi := rot.x / Num.sqrt (rot.x * rot.x + rot.y * rot.y)
-    (sintheta, cosphi, Num.sqrt ((1 : α) - cosphi * cosphi))
+    -- normalise the x/y components, keeping the sign of y; both zero: arbitrary angle
+    let rho := Num.sqrt (rot.x * rot.x + rot.y * rot.y)
+    if Num.gt rho (0 : α) then (sintheta, rot.x / rho, rot.y / rho)
+    else (sintheta, (1 : α), (0 : α))
   else
     (sintheta, (1 : α), (0 : α))
 
